@@ -63,12 +63,12 @@ func RunCLI(c *mon.Ctx, b Binary, args []string, stdin string, files map[string]
 	var res CLIResult
 	select {
 	case <-done:
-	case <-time.After(60 * time.Second):
+	case <-time.After(240 * time.Second):
 		cmd.Process.Kill()
 		<-done
 		res.Timeout = true
 		// a wall-clock deadline is never a verdict: the case is abandoned as inconclusive
-		c.Inconclusive("CLI run hit the 60 s watchdog: " + b.Name + " " + strings.Join(args, " "))
+		c.Inconclusive("CLI run hit the 240 s watchdog: " + b.Name + " " + strings.Join(args, " "))
 		panic(mon.Unjudged("cli watchdog"))
 	}
 	res.Status = cmd.ProcessState.ExitCode()
